@@ -309,12 +309,20 @@ def _judge_model(kind, case, rec, family):
         rec.violation("C14:nd-differs-from-fresh-twin", family, case, "after %d calls (and the caller overwriting his own data) mean / covariance differ from a fresh twin's" % steps)
     if not np.array_equal(dist.sample(5, random_state=1), twin.sample(5, random_state=1)):
         rec.violation("C14:nd-seeded-sample-differs-from-twin", family, case, "seeded sample differs from a fresh twin's")
-    # a marginal over all variables in order must be a new object, not the distribution itself
-    full = dist.marginal(list(range(p)))
-    _scribble(rec, full.mean)
-    _scribble(rec, full.covariance)
-    if not _same_dist(dist, twin):
-        rec.violation("C14:nd-result-writes-through", family, case, "writing into the result of marginal(all variables) changed the distribution")
+    # a marginal over / a conditional of all variables in order given nothing must be a new object, not the distribution itself
+    allv = list(range(p))
+    for how, full in (("marginal(list)", dist.marginal(allv)), ("marginal(range)", dist.marginal(range(p))), ("marginal(ndarray)", dist.marginal(np.arange(p))),
+                      ("conditional(range, [], [])", dist.conditional(range(p), [], [])), ("conditional(list, [], [])", dist.conditional(allv, [], [])),
+                      ("conditional(ndarray, [], [])", dist.conditional(np.arange(p), [], []))):
+        rec.count("identity-queries")
+        if full is dist:
+            rec.violation("C14:nd-result-is-the-model", family, case, "%s returned the distribution object itself" % how)
+            continue
+        _scribble(rec, full.mean)
+        _scribble(rec, full.covariance)
+        if not _same_dist(dist, twin):
+            rec.violation("C14:nd-result-writes-through", family, case, "writing into the result of %s changed the distribution" % how)
+            break
     return True
 
 
@@ -359,6 +367,19 @@ def _utils_workload(U, gens, rng, rec):
         ("all_dags", (cp,)), ("cartesian", ([np.array([1, 2]), np.array([3, 4, 5])],)), ("sort", ([3, 1, 2],)), ("sort", (list(reversed(order)), order)),
         ("subsets", (S,)), ("member", ([D, Pext], D)), ("delete", (W, np.array([True] + [False] * (p - 1)), 0)), ("split_data", (data, [0.5, 0.25, 0.25])),
         ("split_data", (data, (0.7, 0.2, 0.1), 7)), ("sorted_tuple", ({3, 1, 2},)), ("all_but", (0, p)), ("all_but", ([0, 1], p)),
+    ]
+    # "nothing to do" inputs, where handing back the caller's own array would be the cheapest thing to do
+    full = set(range(p))
+    Und = ((P != 0) & (P.T != 0)).astype(int)
+    closed = gmat.to_np([G.reach(dag, 1 << v) & ~(1 << v) for v in range(p)])
+    calls += [
+        ("induced_subgraph", (full, P)), ("induced_subgraph", (list(range(p)), W)), ("only_directed", (D,)), ("only_directed", (W,)),
+        ("only_undirected", (Und,)), ("skeleton", (Und,)), ("moral_graph", (Und,)), ("pdag_to_cpdag", (cp,)), ("pdag_to_cpdag", (D,)),
+        ("maximally_orient", (D,)), ("pdag_to_dag", (D,)), ("pdag_to_dag", (W,)), ("all_dags", (D,)), ("all_dags", (W,)),
+        ("dag_to_icpdag", (D, set())), ("dag_to_icpdag", (D, full)), ("pdag_to_icpdag", (D, I)), ("pdag_to_icpdag", (D, full)),
+        ("remove_edges", (D, 0)), ("add_edges", (D, 0)), ("delete", (W, np.zeros(p, dtype=bool), 0)), ("sort", (list(order), list(order))),
+        ("matrix_block", (W, list(range(p)), list(range(p)))), ("transitive_closure", (closed,)), ("imec", (D, full)), ("imec", (D, set())),
+        ("split_data", (data, [1.0])), ("split_data", (data, [1.0], 0)), ("sampling_matrix", (np.zeros((p, p)),)), ("subsets", (set(),)),
     ]
     results = {}
     import sempler as _s
